@@ -291,6 +291,14 @@ impl Gen {
             };
             // in constructors the low registers become the root
             let reg = if matches!(kind, CbKind::New | CbKind::TryNew | CbKind::MapRoot | CbKind::TryMapRoot) && r.chance(3, 4) { r.below(NROOT as u64) as u8 } else { anyr(r) };
+            // a third of the traced allocations are born with contents taken from the registers
+            if !burst && matches!(k, Kind::Node | Kind::Struct | Kind::Lock) && !full.is_empty() && r.chance(1, 3) {
+                let mut sr = |r: &mut Rng| if r.chance(2, 3) { Some(r.pick(&full)) } else { None };
+                let cs = [sr(r), sr(r), sr(r)];
+                let mut wr = |r: &mut Rng| if !wfull.is_empty() && r.chance(1, 2) { Some(r.pick(&wfull)) } else { None };
+                let ws = [wr(r), wr(r)];
+                return Op::M(MOp::AllocW(reg, k, cs, ws));
+            }
             Op::M(MOp::Alloc(reg, k, 1 + r.below(3) as u8, r.below(3) as u8))
         };
         if full.is_empty() {
@@ -659,6 +667,23 @@ impl OpSource for Gen {
                     self.tpl.push_back(Op::M(MOp::Clear(rx)));
                     self.cb_left += 4;
                     return Some(Op::M(MOp::LoadRoot(rp, r.below(NROOT as u64) as u8)));
+                }
+                // template: while a cycle is in progress, a wrapper is BORN AROUND a fresh (white) child -- and possibly
+                // around an object already in hand -- and is then adopted by a holder loaded from the root
+                if v.cb_phase != 0 && !matches!(kind, CbKind::Finalize(_)) && self.rng.chance(1, 8) {
+                    let r = &mut self.rng;
+                    let (r0, rx, ry) = (r.below(2) as u8, 2 + r.below(2) as u8, 4 + r.below(2) as u8);
+                    let slot = r.below(NROOT as u64) as u8;
+                    self.tpl.push_back(Op::M(MOp::Alloc(ry, r.pick(&[Kind::Node, Kind::Leaf, Kind::Struct]), 1, 0)));
+                    let wk = r.pick(&[Kind::Node, Kind::Node, Kind::Struct, Kind::Lock]);
+                    let cs = match r.below(3) { 0 => [Some(ry), None, None], 1 => [Some(ry), None, Some(r0)], _ => [None, None, Some(ry)] };
+                    let cs = if wk == Kind::Lock { [Some(ry), None, None] } else { cs };
+                    self.tpl.push_back(Op::M(MOp::AllocW(rx, wk, cs, [None, None])));
+                    self.tpl.push_back(Op::M(MOp::Clear(ry)));
+                    self.tpl.push_back(Op::M(MOp::Store(r0, r.below(2) as u8, Some(rx))));
+                    self.tpl.push_back(Op::M(MOp::Clear(rx)));
+                    self.cb_left += 6;
+                    return Some(Op::M(MOp::LoadRoot(r0, slot)));
                 }
                 // template: a fully marked object of a NON-tracing type used as barrier parent of a fresh
                 // (white) object, strongly and weakly: barriers must not re-queue it (it was never counted
